@@ -316,6 +316,54 @@ fn main() {
     }
     res.cov("keepalive_policy_change_requests", ka_cases);
 
+    // ---- family 3: every field of the record of *this* connection decides, whatever earlier
+    // connections of the same process / user looked like (no caching across connections)
+    let mut pair_cases = 0u64;
+    if replay.is_none() {
+        let mut recs: Vec<(u32, u32, bool)> = Vec::new(); // (uid, pid, is_root)
+        for uid in [0u32, 1001] {
+            for pid in [whos[0].pid, whos[1].pid] {
+                for ir in [true, false] {
+                    recs.push((uid, pid, ir));
+                }
+            }
+        }
+        w.set_rules(WS, None);
+        w.set_rules(HOSTGA, None);
+        w.set_rules(IMDS, Policy::simple("enforce-deny-grants-alice", "enforce", false).with(&["/a"], &[(0, "alice")]).to_item());
+        for d in [WS, IMDS, HOSTGA] {
+            if only_c03 && d == IMDS {
+                continue;
+            }
+            for a in &recs {
+                for b in &recs {
+                    for (step, r) in [a, b].iter().enumerate() {
+                        let rec = AuditRec::to(d, r.0, r.1, r.2);
+                        sport = if sport >= 29999 { 20000 } else { sport + 1 };
+                        let hi = host_index(d).unwrap();
+                        let cur = w.hosts.all()[hi].cursor();
+                        let obs = run_case(&w, sport, Some(&rec), "GET", "/a/x");
+                        pair_cases += 1;
+                        let must_refuse = if d == IMDS { r.0 != 1001 } else { !r.2 };
+                        if must_refuse {
+                            nontrivial.insert(format!("pair|{d}|{:?}|{:?}|{step}", a, b));
+                        }
+                        let claims_ok = w.hosts.all()[hi].requests_since(cur).iter().all(|(_, m)| m.header("x-ms-azure-host-claims").unwrap_or_default() == format!("{{ \"isRoot\": \"{}\"}}", r.2));
+                        let good = if must_refuse { obs.status == Ok(403) && obs.bytes.iter().sum::<usize>() == 0 } else { obs.status == Ok(200) && obs.reqs.len() == 1 && claims_ok };
+                        if !good {
+                            res.violation(
+                                &format!("decided-with-another-connections-record:{}", if must_refuse { "relayed" } else { "refused-or-wrong-claims" }),
+                                &format!("connection {} of 2 to {d} with record (uid {}, pid {}, is_root {}) after a connection with (uid {}, pid {}, is_root {}): status {:?}, upstream {:?}", step + 1, r.0, r.1, r.2, a.0, a.1, a.2, obs.status, obs.reqs),
+                                json!({"family": "record-pairs", "dest": d, "first": [a.0, a.1, a.2], "second": [b.0, b.1, b.2], "step": step}),
+                            );
+                        }
+                    }
+                }
+            }
+        }
+    }
+    res.cov("record_pair_requests", pair_cases);
+
     // determinism gate: replay the first cases and demand identical observations
     let mut gate_ok = true;
     cur_policy = usize::MAX;
@@ -347,7 +395,7 @@ fn main() {
     for p in &panics {
         res.violation(&format!("panic:{}", p.split(" at=").nth(1).unwrap_or("?").split(' ').next().unwrap_or("?")), p, json!({"note": "panic while running the case product"}));
     }
-    res.cov("evaluations", total as u64 + ka_cases);
+    res.cov("evaluations", total as u64 + ka_cases + pair_cases);
     res.cov("distinct_nontrivial", nontrivial.len() as u64);
     res.cov("expected_relayed", relayed_n);
     res.cov("expected_refused", refused_n);
@@ -357,7 +405,7 @@ fn main() {
     res.cov(
         "rule",
         format!(
-            "full product of {} destinations (incl. direct/no record, self, other) x {} callers x {} rule sets (endpoint under test gets the set, the other endpoints a contrasting one) x {} URLs x 2 methods, one fresh TCP connection with a chosen source port and an injected kernel audit record each; plus every ordered pair of rule sets (A,B) applied A,B,A to one kept-alive attributed connection (policy in force at request time must decide); non-trivial = the reference says the request must be refused (distinct (dest, caller, rule set, url) counted)",
+            "full product of {} destinations (incl. direct/no record, self, other) x {} callers x {} rule sets (endpoint under test gets the set, the other endpoints a contrasting one) x {} URLs x 2 methods, one fresh TCP connection with a chosen source port and an injected kernel audit record each; plus every ordered pair of rule sets (A,B) applied A,B,A to one kept-alive attributed connection (policy in force at request time must decide); plus every ordered pair of records over uid (0,1001) x two pids x is_root (0,1) on two consecutive connections per endpoint (each connection is judged by its own record); non-trivial = the reference says the request must be refused (distinct (dest, caller, rule set, url) counted)",
             dests.len(), whos.len(), pols.len(), urls.len()
         ),
     );
